@@ -513,6 +513,9 @@ def decompress_destripe_cbin(
         _saturation = np.load(file_saturation, mmap_mode="r+")
         n_batch = int(np.ceil(i_chunk * CHUNK_SIZE / NBATCH))
         first_s = (NBATCH - SAMPLES_TAPER * 2) * n_batch
+        if n_batch > 0 and first_s + SAMPLES_TAPER * 2 >= _sr.ns:
+            # the previous batch already reaches the end of the file: it belongs to an earlier worker
+            return
 
         # Find the maximum sample for each chunk
         max_s = _sr.ns if i_chunk == n_chunk - 1 else (i_chunk + 1) * CHUNK_SIZE
